@@ -315,6 +315,14 @@ func K11(which int) *Entry {
 		f := file("k11e", m)
 		AutoComments(f)
 		return &Entry{Name: "k11e", File: f, Cfg: BaseConfig("SpanPick"), Tags: []string{"oneof-by-value-duration"}}
+	case 5:
+		// custom-type child of a nullable embedded message
+		part := M("Part", F("PartName"), F("PartBlob", Sc(ir.Bytes), Custom("CustomA")), F("PartJoined"))
+		f := file("k11f", M("Box", F("Name"), F("Part", MsgT("Part"), Embed())), part)
+		AutoComments(f)
+		c := BaseConfig("Box")
+		c.CustomTypes = map[string]string{"Box.PartJoined": "verif/types.Joined"}
+		return &Entry{Name: "k11f", File: f, Cfg: c, Tags: []string{"custom-in-embed?"}}
 	default:
 		// oneof inside an embedded message
 		inner := WithOneofs(M("Inner", F("InnerName"), F("Left", In(0)), F("Right", Sc(ir.Int64), In(0))), "Side")
@@ -331,4 +339,4 @@ func Curated() []*Entry {
 }
 
 // Exotic returns the isolated shapes (K11).
-func Exotic() []*Entry { return []*Entry{K11(0), K11(1), K11(2), K11(3), K11(4)} }
+func Exotic() []*Entry { return []*Entry{K11(0), K11(1), K11(2), K11(3), K11(4), K11(5)} }
